@@ -62,6 +62,7 @@ type Contract struct {
 	Linear      []string // slice variables used linearly (s = append(s, ...))
 	Bounded     string   // non-empty: the obligations are a bounded stand-in with this stated bound
 	Tier        string   // "thorough": only checked in the thorough tier
+	Entry       bool     // request entry point: no mutex is held when it starts
 	Inline      bool
 	Strict      bool
 	Trusted     bool
@@ -139,11 +140,16 @@ func parseContractFile(path, pkgPath string) ([]*Contract, error) {
 			return nil, fmt.Errorf("%s:%d: clause outside a func block", path, i+1)
 		}
 		mk := func(kind string, loop int, text string) *Clause {
+			assumed := false
+			if strings.HasPrefix(strings.TrimSpace(text), "assumed ") {
+				assumed = true
+				text = strings.TrimSpace(strings.TrimPrefix(strings.TrimSpace(text), "assumed "))
+			}
 			props, txt := parseProps(text)
 			if props == nil {
 				props = cur.Props
 			}
-			c := &Clause{Kind: kind, Loop: loop, Text: txt, Props: props}
+			c := &Clause{Kind: kind, Loop: loop, Text: txt, Props: props, Assumed: assumed}
 			last = c
 			return c
 		}
@@ -229,6 +235,8 @@ func parseContractFile(path, pkgPath string) ([]*Contract, error) {
 					cur.Linear = append(cur.Linear, n)
 				}
 			}
+		case "entry":
+			cur.Entry = true
 		case "tier":
 			cur.Tier = strings.TrimSpace(rest)
 		case "bounded":
